@@ -67,9 +67,7 @@ func vh_C08_build() {
 // Reset + WriteHeader + Add (the manual building sequence).
 func vh_C08_reset_add() {
 	old, fresh := vxOldAndFresh()
-	n := vxInt()
-	vxAssume(0 <= n)
-	vxAssume(n <= 3000)
+	n := vxLen(3000)
 	t, v := AttrType(vxU16()), vxBytes(n, n)
 	old.Reset()
 	old.WriteHeader()
